@@ -536,7 +536,8 @@ func runC10(c *Ctx) {
 	r := c.R
 	loadReplayKey(c)
 	c10CompilePatch(c)
-	r.Rule = "trees built as Go ast values: every chain slot/slot/kind to depth 3 over all 22 node kinds and all 28 child positions (incl. nil From/To, empty lists), every tree of depth<=3 over {Identifier, Binary, Slice, Array}, random trees to depth 6; type-checked and optimized trees (ConstantNode, range and membership rewrites); parsed sources: 41 contexts x 11 leaves, all context pairs, random compositions; each walked by the real ast.Walk with an idle and with replacing visitors (Enter/Exit x assignment/ast.Patch, at every position of small trees), compared with the Lean model (table from ast/visitor.go) and with the reflection oracle; expr.Compile with expr.Patch replacing an identifier in every context; non-trivial = tree has >= 2 nodes; distinct by (tree, visitor, position)"
+	c10Recheck(c)
+	r.Rule = "trees built as Go ast values: every chain slot/slot/kind to depth 3 over all 22 node kinds and all 28 child positions (incl. nil From/To, empty lists), every tree of depth<=3 over {Identifier, Binary, Slice, Array}, random trees to depth 6; type-checked and optimized trees (ConstantNode, range and membership rewrites); parsed sources: 41 contexts x 11 leaves, all context pairs, random compositions; each walked by the real ast.Walk with an idle and with replacing visitors (Enter/Exit x assignment/ast.Patch, at every position of small trees), compared with the Lean model (table from ast/visitor.go) and with the reflection oracle; expr.Compile with expr.Patch replacing an identifier in every context; replacements changing the static type at 15 type-directed spots x 8 target types and the root under AsBool, compared with the written-out patched expression; non-trivial = tree has >= 2 nodes; distinct by (tree, visitor, position)"
 
 	var cases []c10case
 	addTree := func(label string, t ast.Node, modes []string, allPositions bool) {
@@ -856,6 +857,103 @@ func c10CompilePatch(c *Ctx) {
 	}
 	sort.Strings(ns)
 	r.Note("compile-patch contexts: %s", strings.Join(ns, " "))
+}
+
+// ---- the patched tree is type-checked again ----------------------------------------------------------
+
+// replaceOnExit replaces, on Exit, the identifier `name` (or, with root=true, any BinaryNode with operator
+// `>`) by the identifier `to`, through ast.Patch (which copies the old node's type onto the new one).
+type replaceOnExit struct {
+	name, to string
+	root     bool
+}
+
+func (v *replaceOnExit) Enter(*ast.Node) {}
+func (v *replaceOnExit) Exit(n *ast.Node) {
+	if v.root {
+		if b, ok := (*n).(*ast.BinaryNode); ok && b.Operator == ">" {
+			ast.Patch(n, &ast.IdentifierNode{Value: v.to})
+		}
+		return
+	}
+	if id, ok := (*n).(*ast.IdentifierNode); ok && id.Value == v.name {
+		ast.Patch(n, &ast.IdentifierNode{Value: v.to})
+	}
+}
+
+// c10Recheck: a replacement made in a WELL-TYPED expression must take effect in the tree that is then
+// checked and compiled: an ill-typed result is rejected by Compile, an accepted one behaves exactly like
+// the explicitly written patched expression (no code generated from the stale type ast.Patch copied).
+func c10Recheck(c *Ctx) {
+	r := c.R
+	env := map[string]interface{}{"X": 1, "I2": 1, "I64": int64(1), "I8": int8(1), "U": uint(1), "F": 1.0, "Str": "s", "B": true,
+		"Arr": []int{1, 2, 5}, "Any": interface{}(int64(1))}
+	run := func(src string, opts ...expr.Option) (out string) {
+		defer func() {
+			if rec := recover(); rec != nil {
+				out = "panic: " + fmt.Sprint(rec)
+			}
+		}()
+		p, err := expr.Compile(src, append([]expr.Option{expr.Env(env)}, opts...)...)
+		if err != nil {
+			return "compile-error: " + strings.SplitN(err.Error(), "\n", 2)[0]
+		}
+		v, err := expr.Run(p, env)
+		if err != nil {
+			return "run-error: " + strings.SplitN(err.Error(), "\n", 2)[0]
+		}
+		return fmt.Sprintf("ok: %#v", v)
+	}
+	cls := func(s string) string { return s[:strings.Index(s, ":")] }
+	spots := []struct{ name, src string }{
+		{"eq", "%s == 1"}, {"eq-right", "1 == %s"}, {"in-const-array", "%s in [1, 2, 5]"}, {"in-array", "%s in Arr"}, {"add", "%s + 1"},
+		{"mul", "%s * 2"}, {"less", "%s < 2"}, {"neg", "-%s"}, {"range", "len(%s..3)"}, {"index", "Arr[%s]"}, {"slice", "Arr[%s:]"},
+		{"cond", "%s == 1 ? 'y' : 'n'"}, {"closure", "filter(Arr, {# == %s})"}, {"nested", "(%s + 1) * 2 == 4"}, {"not", "not (%s == 1)"},
+		{"concat", "string('a') + %s"},
+	}
+	targets := []string{"I2", "I64", "I8", "U", "F", "Str", "B", "Any"}
+	n := 0
+	for _, opt := range []bool{true, false} {
+		for _, sp := range spots {
+			if sp.name == "concat" {
+				continue
+			}
+			if base := run(fmt.Sprintf(sp.src, "X"), expr.Optimize(opt)); cls(base) != "ok" {
+				r.Mismatch("generator", sp.src, "unpatched expression is not well-typed: "+base, "")
+				continue
+			}
+			for _, to := range targets {
+				written := fmt.Sprintf(sp.src, to)
+				want := run(written, expr.Optimize(opt))
+				got := run(fmt.Sprintf(sp.src, "X"), expr.Patch(&replaceOnExit{name: "X", to: to}), expr.Optimize(opt))
+				n++
+				r.Case(fmt.Sprintf("recheck|%s|%s|%v", sp.src, to, opt), true)
+				input := map[string]interface{}{"source": fmt.Sprintf(sp.src, "X"), "visitor": "Exit: IdentifierNode X -> IdentifierNode " + to + " via ast.Patch",
+					"written_out": written, "optimize": opt, "env": "X=1 I2=1 I64=int64(1) I8=int8(1) U=uint(1) F=1.0 Str=\"s\" B=true Arr=[]int{1,2,5} Any=interface{}(int64(1))"}
+				switch {
+				case cls(want) == "compile-error" && cls(got) != "compile-error":
+					violateKeyed(r, Violation{What: "a visitor's replacement makes the expression ill-typed, yet expr.Compile accepts it: the patched tree was not type-checked",
+						Key: "c10:patched-tree-not-rechecked:ill-typed-accepted:" + sp.name, Input: input, Expect: want, Got: got})
+				case cls(want) != "compile-error" && got != want:
+					violateKeyed(r, Violation{What: "the program compiled from the patched tree does not behave like the written-out patched expression (code generated from a stale type)",
+						Key: "c10:patched-tree-not-rechecked:stale-type:" + sp.name, Input: input, Expect: want, Got: got})
+				}
+			}
+		}
+		// the root replaced under AsBool(): `X > 0` (bool) -> identifier of another type
+		for _, to := range []string{"Str", "I64", "B", "Any"} {
+			want := run(to, expr.AsBool(), expr.Optimize(opt))
+			got := run("X > 0", expr.AsBool(), expr.Patch(&replaceOnExit{to: to, root: true}), expr.Optimize(opt))
+			n++
+			r.Case(fmt.Sprintf("recheck|root-asbool|%s|%v", to, opt), true)
+			if cls(want) != cls(got) || (cls(want) == "ok" && want != got) {
+				violateKeyed(r, Violation{What: "the root replaced by a visitor is not re-checked against AsBool()",
+					Key: "c10:patched-tree-not-rechecked:root-asbool", Input: map[string]interface{}{"source": "X > 0", "options": "AsBool()", "visitor": "Exit: root BinaryNode -> IdentifierNode " + to, "optimize": opt},
+					Expect: want, Got: got})
+			}
+		}
+	}
+	r.Count("recheck-cases", n)
 }
 
 // decode makes the hex message inside an outcome readable for the report
